@@ -59,10 +59,17 @@ type config struct {
 	PidStart uint16 `json:"pid"`
 	Seq      uint16 `json:"seq"`
 	Sid      int    `json:"sid"` // vp9: selected spatial layer (0 or 1)
+	// vp9: a switch to the other spatial layer is pending when the stream
+	// starts (it completes at the first packet of the keyframe)
+	Pending bool `json:"pending"`
 }
 
 func (c config) String() string {
-	return fmt.Sprintf("%s/csrc%d/ext%v/pid%d/seq%d/sid%d", shapes[c.Shape].Name, c.CSRC, c.Ext, c.PidStart, c.Seq, c.Sid)
+	s := fmt.Sprintf("%s/csrc%d/ext%v/pid%d/seq%d/sid%d", shapes[c.Shape].Name, c.CSRC, c.Ext, c.PidStart, c.Seq, c.Sid)
+	if c.Pending {
+		s += "-switch-pending"
+	}
+	return s
 }
 
 type op struct {
@@ -107,6 +114,9 @@ func fresh(cfg config) func() seqx.World {
 			l.MaxSid = 1
 			l.Sid = uint8(cfg.Sid)
 			l.WantedSid = uint8(cfg.Sid)
+			if cfg.Pending {
+				l.WantedSid = uint8(1 - cfg.Sid)
+			}
 		}
 		w.Down.SetLayer(l)
 		return &world{cfg: cfg, sh: sh, w: w, seq: cfg.Seq, lastOut: -1}
@@ -264,8 +274,17 @@ func (w *world) Apply(x seqx.Op) *core.Violation {
 		if err := in.Unmarshal(orig); err != nil {
 			panic("harness built an unparsable packet: " + err.Error())
 		}
-		// must this packet be withheld?  (layer pinned: tid 0; vp9 sid cfg.Sid)
-		above := o.Tid > 0 || sp.sid > w.cfg.Sid
+		// must this packet be withheld?  (layer pinned: tid 0; vp9: the
+		// spatial layer selected once this packet has been handled -- cfg.Sid
+		// unless a pending switch has just completed)
+		curSid := w.cfg.Sid
+		if w.sh.Codec == "vp9" {
+			curSid = int(w.w.Down.Layer().Sid)
+			if !w.cfg.Pending && curSid != w.cfg.Sid {
+				return viol("layer-moved/"+w.sh.Name, sp.descr+": the pinned spatial layer changed")
+			}
+		}
+		above := o.Tid > 0 || sp.sid > curSid
 		if len(out) == 0 {
 			if !above {
 				return viol("not-forwarded/"+w.sh.Name, sp.descr+": in-order packet at or below the selected layers was not forwarded")
@@ -291,11 +310,11 @@ func (w *world) Apply(x seqx.Op) *core.Violation {
 		if got.Header.Marker && !in.Marker {
 			// may only be set on the last packet of a frame of the highest
 			// forwarded spatial layer
-			if !(w.sh.Codec == "vp9" && sp.end && sp.sid == w.cfg.Sid) {
-				return viol("marker-set-illegally/"+w.sh.Name, sp.descr+": marker set on a packet that does not end a frame of the highest forwarded spatial layer")
+			if !(w.sh.Codec == "vp9" && sp.end && sp.sid == curSid) {
+				return viol("marker-set-illegally/"+w.sh.Name, fmt.Sprintf("%s: marker set on a packet that does not end a frame of the highest forwarded spatial layer (sid %d is selected)", sp.descr, curSid))
 			}
 		}
-		if w.sh.Codec == "vp9" && sp.end && sp.sid == w.cfg.Sid && !got.Header.Marker {
+		if w.sh.Codec == "vp9" && sp.end && sp.sid == curSid && !got.Header.Marker {
 			// not demanded by the property ("only ever set"), so no violation
 		}
 		if got.Header.Extension != in.Extension || len(got.Header.Extensions) != len(in.Extensions) {
@@ -403,6 +422,9 @@ func configs() []config {
 				case "vp9":
 					for _, sid := range []int{0, 1} {
 						cs = append(cs, config{Shape: si, CSRC: csrc, Ext: ext, PidStart: 126, Seq: seqs[0], Sid: sid})
+						if csrc == 0 || !core.Quick() {
+							cs = append(cs, config{Shape: si, CSRC: csrc, Ext: ext, PidStart: 126, Seq: seqs[0], Sid: sid, Pending: true})
+						}
 					}
 				default:
 					cs = append(cs, config{Shape: si, CSRC: csrc, Ext: ext, Seq: seqs[0]})
